@@ -490,6 +490,7 @@ def run(ctx):
         race_res["compute_schedules_under_race"] = sum(len(c["traces"]) for c in rp_cases)
         race_res["race_reports_cache_compute"] = len(rc_races) + len(rp_races)
         race_res["traces_under_race_validated_against_model"] = ev
+        race_res["load_induced_timeouts_under_race"] = rc_stats.get("load_induced_timeouts", 0) + rp_stats.get("load_induced_timeouts", 0)
         for r in (rc_races + rp_races)[:3]:
             ctx.violation({"kind": "data-race", "part": "cache/compute", "frames": r["frames"], "report": r["text"],
                            "explanation": "race detector report while driving RequestCache / ComputePatches under enumerated schedules",
@@ -540,6 +541,11 @@ def run(ctx):
                                "compute_configurations_outside_domain": hyps.count(0)},
         "hypotheses_validated": {"patch_compare total preorder + zero-means-same on the table outputs (vm_compute, per configuration)":
                                  {"hold": hyps.count(1), "fail (oracle not claimed, correspondence still checked)": hyps.count(0)}},
+        "load_induced_timeouts": c_stats.get("load_induced_timeouts", 0) + p_stats.get("load_induced_timeouts", 0)
+                                 + race_res.get("load_induced_timeouts_under_race", 0),
+        "timeout_policy": "a harness timeout (a Get that does not return within 1 s, an attempt that is not delivered) is only a "
+                          "candidate: the same schedule is executed again, alone, with 20x the patience, and only a timeout there is "
+                          "reported; the others are counted in load_induced_timeouts",
         "known_findings_results": kf_res,
         "race_detector": race_res,
     })
